@@ -98,6 +98,17 @@ def main():
         subprocess.run(["git", "-C", "/repo", "worktree", "remove", "--force", wt], capture_output=True)
     out_dir = os.path.join(V, "seeded", "%s-%d" % (prop, n))
     os.makedirs(out_dir, exist_ok=True)
+    prev_p = os.path.join(out_dir, "meta.json")
+    if os.path.exists(prev_p):
+        prev = json.load(open(prev_p))
+        hist = prev.get("history", [])
+        hist.append({"detected": prev.get("detected"), "check": prev.get("check")})
+        res["history"] = hist
+        if skip:
+            for k in ("existing_tests_pass", "baseline_tests_broken"):
+                if prev.get(k) is not None:
+                    res[k] = prev[k]
+            res["ran"] = [l for l in prev.get("ran", []) if l.startswith("go test -vet=off")] + res["ran"]
     shutil.copy(patch, os.path.join(out_dir, "patch.diff"))
     shutil.copy(demo, os.path.join(out_dir, "demo_test.go"))
     # restore evidence written by the check run against the mutated tree? evidence is rewritten by the next real run.
